@@ -29,7 +29,7 @@ def register(prop, TB):
         "rayon and per-process hash seeds are represented by an arbitrary-order parameter in the theorems and exercised by repeated fresh processes with RAYON_NUM_THREADS in {1,2,3,8,16}; shared mutable caches inside write_item are covered by the byte comparison only",
         "workspace mode: generated into a directory holding an empty Cargo.toml, as the repository's own workspace tests do (their cargo build step, which needs the network, is not run)"])
     import compilesuite
-    prop("C14", level="other", lean_props=["C14"], bins=["rt", "gentool"], streams=[], oracle_tags=["C14"], extra_steps=[compilesuite.step], trusted_base=TB + [
+    prop("C14", level="other", lean_props=["C14", "C14Graph"], bins=["rt", "gentool"], streams=[], oracle_tags=["C14"], extra_steps=[compilesuite.step], trusted_base=TB + [
         "rustc (cargo check) is the judge of 'type-checks'; nothing about rustc is modelled",
         "heck's case conversion is not modelled; sibling-name collisions are exercised by the generator of bin/compilesuite.py only",
         "the T2 extraction of KEYWORDS_SET and the path-segment keyword list from symbol.rs (bin/tables.py)"],
